@@ -13,6 +13,7 @@ import (
 	"strconv"
 	"strings"
 	"time"
+	"vh/gen/ngapgen"
 
 	"free5gclib/ngap"
 
@@ -261,8 +262,49 @@ func runC14(c *fw.Case) (o fw.Outcome) {
 	if !decodeMonitored(&o, base, "canonical "+m.Name) {
 		return
 	}
-	family := c.Idx / len(ms) % 8
+	family := c.Idx / len(ms) % 9
 	switch family {
+	case 8: // legal but unusual seeds: sizes in the EXTENSION range of extensible constraints, up to and across the 16K step
+		// where a length determinant is fragmented (a BIT STRING of 16384 bits is 2 KiB: inside the 4 KiB the claim covers)
+		g := ngapgen.New(r, 30+r.Intn(150))
+		g.ExtBig = true
+		seed, _ := genPDUWith(g, r, m)
+		enc, err := per.Marshal(seed, pduTag)
+		if err != nil {
+			o.Inconcl("reference could not encode the extension-range seed: %v", err)
+			return
+		}
+		for f, n := range g.Features {
+			if strings.HasPrefix(f, "size-extension") {
+				o.Count("seeds_with_"+f, int64(n))
+			}
+		}
+		if len(enc) > 4096 {
+			o.Count("extension_seeds_cut_to_4096", 1)
+			enc = enc[:4096]
+		}
+		if !decodeMonitored(&o, enc, "extension-range seed of "+m.Name) {
+			return
+		}
+		for k := 0; k < 120; k++ {
+			b := append([]byte(nil), enc...)
+			switch k % 3 {
+			case 0:
+				b = b[:r.Intn(len(b)+1)]
+			case 1:
+				i := r.Intn(len(b) * 8)
+				b[i/8] ^= 0x80 >> uint(i%8)
+			default:
+				b, _ = mutateOnce(r, b, other)
+				if len(b) > 4096 {
+					b = b[:4096]
+				}
+			}
+			if !decodeMonitored(&o, b, "mutated extension-range seed of "+m.Name) {
+				return
+			}
+		}
+		o.Tag("family:extension-range-seeds")
 	case 0: // prefixes
 		stride := 1
 		if len(base) > 200 {
